@@ -66,6 +66,31 @@ pub fn is_type(opcode: spirv::Op) -> bool {
             | spirv::Op::TypeAccelerationStructureKHR
             | spirv::Op::TypeRayQueryKHR
             | spirv::Op::TypeForwardPointer
+            | spirv::Op::TypePipeStorage
+            | spirv::Op::TypeNamedBarrier
+            | spirv::Op::TypeUntypedPointerKHR
+            | spirv::Op::TypeCooperativeMatrixKHR
+            | spirv::Op::TypeNodePayloadArrayAMDX
+            | spirv::Op::TypeHitObjectNV
+            | spirv::Op::TypeCooperativeVectorNV
+            | spirv::Op::TypeCooperativeMatrixNV
+            | spirv::Op::TypeTensorLayoutNV
+            | spirv::Op::TypeTensorViewNV
+            | spirv::Op::TypeVmeImageINTEL
+            | spirv::Op::TypeAvcImePayloadINTEL
+            | spirv::Op::TypeAvcRefPayloadINTEL
+            | spirv::Op::TypeAvcSicPayloadINTEL
+            | spirv::Op::TypeAvcMcePayloadINTEL
+            | spirv::Op::TypeAvcMceResultINTEL
+            | spirv::Op::TypeAvcImeResultINTEL
+            | spirv::Op::TypeAvcImeResultSingleReferenceStreamoutINTEL
+            | spirv::Op::TypeAvcImeResultDualReferenceStreamoutINTEL
+            | spirv::Op::TypeAvcImeSingleReferenceStreaminINTEL
+            | spirv::Op::TypeAvcImeDualReferenceStreaminINTEL
+            | spirv::Op::TypeAvcRefResultINTEL
+            | spirv::Op::TypeAvcSicResultINTEL
+            | spirv::Op::TypeBufferSurfaceINTEL
+            | spirv::Op::TypeStructContinuedINTEL
     )
 }
 
